@@ -204,7 +204,7 @@ pub fn replay_full(rf: &RunFile) -> (Option<engine::Violation>, Option<Vec<u16>>
     }
     if rf.variant == "cases:degenerate-strides" {
         let (_, v) = crate::degen::degenerate_stride_cases();
-        return (v.map(|detail| engine::Violation { property: "C18".into(), kind: "callback-invariant".into(), detail, thread: 0, op: 0, step: 0 }), None);
+        return (v.map(|detail| engine::Violation { property: "C18".into(), kind: crate::degen::kind_of(&detail).into(), detail, thread: 0, op: 0, step: 0 }), None);
     }
     let Some(spec) = rf.spec.as_ref() else { return (None, None) };
     if rf.no_nest {
